@@ -3,6 +3,7 @@ From Coq Require Import List String.
 From SCC Require Import Base.Sexp Model.RunBase Model.RunPM Model.RunX86.
 From SCC Require Import Base.Sexp Model.RunBase Model.RunPM Model.RunStages.
 From SCC Require Import Model.RunFocus.
+From SCC Require Import Model.RunFun2Core.
 Open Scope string_scope.
 
 Definition dispatch (cmd : string) (input : string) : string :=
@@ -11,5 +12,6 @@ Definition dispatch (cmd : string) (input : string) : string :=
   | "codegen-x86" => run_codegen_x86 input
   | "stages" => run_stages input
   | "focus" => run_focus input
+  | "fun2core" => run_fun2core input
   | _ => "BAD - unknown command " ++ cmd ++ nl
   end.
